@@ -11,6 +11,7 @@ import (
 	"path/filepath"
 	"sync"
 	"sync/atomic"
+	"time"
 
 	"golang.org/x/crypto/ssh"
 	"golang.org/x/crypto/ssh/agent"
@@ -92,6 +93,9 @@ type Proxy struct {
 
 	recMu sync.Mutex
 	adds  []agent.AddedKey
+
+	// Latency, when set, delays the answer to a request of the given code (widens race windows).
+	Latency func(code int) time.Duration
 }
 
 // recRing records the AddedKey of every add request on its way to the keyring.
@@ -307,6 +311,11 @@ func (p *Proxy) serve(c net.Conn, id int) {
 		case "close":
 			drop = true
 		default:
+			if p.Latency != nil {
+				if d := p.Latency(code); d > 0 {
+					time.Sleep(d)
+				}
+			}
 			reply = p.answer(req, code)
 		}
 		fr.ReplyLen = len(reply)
